@@ -815,3 +815,34 @@ pub fn pick(i: u16, len: usize) -> usize {
     debug_assert!(len > 0);
     ((i as usize) * len) >> 16
 }
+
+// ------------------------------------------------------------------------------------------------
+// Scratch directories
+// ------------------------------------------------------------------------------------------------
+
+static SCRATCH_COUNTER: AtomicU64 = AtomicU64::new(0);
+
+/// A unique, empty directory that is removed (recursively) when the value is dropped.
+pub struct Scratch(PathBuf);
+
+impl Scratch {
+    pub fn path(&self) -> &Path {
+        &self.0
+    }
+}
+
+impl Drop for Scratch {
+    fn drop(&mut self) {
+        let _ = std::fs::remove_dir_all(&self.0);
+    }
+}
+
+/// Creates a fresh scratch directory under `$VERIF_TMP` (default: the system temp dir).
+pub fn scratch_dir() -> Scratch {
+    let base = std::env::var("VERIF_TMP").map(PathBuf::from).unwrap_or_else(|_| std::env::temp_dir());
+    let n = SCRATCH_COUNTER.fetch_add(1, Ordering::SeqCst);
+    let p = base.join(format!("vcheck-{}", std::process::id())).join(format!("{n}"));
+    let _ = std::fs::remove_dir_all(&p);
+    std::fs::create_dir_all(&p).expect("cannot create scratch dir");
+    Scratch(p)
+}
